@@ -242,6 +242,16 @@ class Spaces:
                 return self.index(fn, ie, index_vars, depth + 1)
         if k == "Expr::MethodCall" and e["method"]["sym"] in ("unwrap", "clone", "copied", "unwrap_or_default"):
             return self.index(fn, e["receiver"], index_vars, depth + 1)
+        if k == "Expr::Try":
+            return self.index(fn, e["expr"], index_vars, depth + 1)
+        if k == "Expr::MethodCall" and e["method"]["sym"] in ("map", "and_then") and len(e["args"]) == 1 and A.kind(e["args"][0]) == "Expr::Closure":
+            # `carrier.map(|i| table[i])`: the space of what the closure yields
+            return self.index(fn, e["args"][0]["body"], index_vars, depth + 1)
+        if k == "Expr::MethodCall" and not e["args"] and A.kind(A.peel(e["receiver"])) == "Expr::Path" and A.path_str(A.peel(e["receiver"])) == "self":
+            # an argument-less helper of the same impl: the space of the index it returns
+            hs = [g for g in A.functions(fn.file) if g.name == e["method"]["sym"] and g.block is not None and g.self_ty == fn.self_ty and g is not fn]
+            if len(hs) == 1 and hs[0].block["stmts"] and A.kind(hs[0].block["stmts"][-1]) == "Stmt::Expr":
+                return self.index(hs[0], hs[0].block["stmts"][-1]["0"], index_vars, depth + 1)
         return None
 
     def _parents_of(self, fn, node):
@@ -351,7 +361,10 @@ def index_carriers(ctx, sp):
             if not m_:
                 continue
             inits = [A.render(st_["init"]["expr"]) for st_, _ in A.find(fn.block, "Stmt::Local") if st_.get("init") and A.pat_idents(st_["pat"]) == [m_.group(1)]]
-            if inits and all(re.search(r"parse_field_impl\(&\w+,state\.fields\.len\(\),\w+(?:\.clone\(\))?,%s," % re.escape(tags[nm]), i_) for i_ in inits):
+            # (the length may be named first: `let len = state.fields.len();`)
+            len_alias = {A.pat_idents(st_["pat"])[0] for st_, _ in A.find(fn.block, "Stmt::Local") if st_.get("init") and len(A.pat_idents(st_["pat"])) == 1 and A.render(st_["init"]["expr"]) == "state.fields.len()"}
+            len_re = "|".join(["state\\.fields\\.len\\(\\)"] + [re.escape(x) for x in sorted(len_alias)])
+            if inits and all(re.search(r"parse_field_impl\(&\w+,(?:%s),\w+(?:\.clone\(\))?,%s," % (len_re, re.escape(tags[nm])), i_) for i_ in inits):
                 carriers[("ParsedFields", nm)] = space
     if len(carriers) != 2:
         raise A.AnchorLost(f"{rel}::parse_fields_impl", "assignments of source/backtrace from the enumerate index")
